@@ -6,8 +6,8 @@ det.install()
 import checklib  # noqa: E402
 import core      # noqa: E402
 
-SUITES = {'C17': ('inplace', 'pack'), 'C03': ('tour', 'sim', 'pack'), 'C04': ('tour', 'sim', 'pack'),
-          'C05': ('tour', 'sim'), 'C09': ('tour', 'sim'),
+SUITES = {'C17': ('inplace', 'pack'), 'C08core': ('pack',), 'C03': ('tour', 'sim', 'pack'), 'C04': ('tour', 'sim', 'pack'),
+          'C05': ('tour', 'sim', 'pack'), 'C09': ('tour', 'sim'),
           'C01': ('tour', 'sim', 'pack'), 'C02': ('tour', 'sim'), 'C07': ('tour', 'sim'),
           'C13': ('tour', 'sim'), 'C14': ('tour', 'sim'), 'C06': ('sched',)}
 
